@@ -27,14 +27,14 @@ theorem userLabel_stk {n : String} {s : St} {id : Nat} {s' : St} (h : userLabel 
 
 /-- `§name;` : the node of the label is what a jump to the label reaches -/
 theorem label_pm (cx : Cx) (fuel : Nat) (env : Src.Env) (he : EnvOK cx env) (n : String) (hn : n ∈ cx.defs) :
-    PM cx (labelStmt n) (fun k b => Src.tr fuel [] env (.label n) k b) env := by
+    PM cx (labelStmt n) (fun k b => Src.tr fuel cx.sm env (.label n) k b) env := by
   intro s items s' h
   simp only [labelStmt, bind_ok, pure_ok] at h
   obtain ⟨id, s1, h1, h2⟩ := h
   simp only [Prod.mk.injEq] at h2
   obtain ⟨rfl, rfl⟩ := h2
   obtain ⟨hst, hid⟩ := userLabel_stk h1
-  have htr : ∀ k b, Src.tr fuel [] env (.label n) k b =
+  have htr : ∀ k b, Src.tr fuel cx.sm env (.label n) k b =
       match env.labels.lookup n with
       | some i => (b.set i (.silent k), i)
       | none => Src.invalid b ("unallocated label " ++ n) := by
@@ -52,8 +52,8 @@ theorem label_pm (cx : Cx) (fuel : Nat) (env : Src.Env) (he : EnvOK cx env) (n :
     | none => exact Grow.push _ _
   intro r i0 hp _ k b _ m j hex hin hcont
   obtain ⟨i, hlk, hR⟩ := hex.labs n id hn (hin n id hid)
-  have hit : itemAt cx.rs ⟨r, i0⟩ = some (.label id true) := by simpa using hp.item (d := 0) rfl
-  have htg : target cx.rs id = ⟨r, i0⟩ := by simpa using hp.resolve cx.hlab (d := 0) (l := id) (nm := true) rfl
+  have hit : ItemC cx.cp cx.rs ⟨r, i0⟩ (.label id true) := by simpa using hp.item (d := 0) rfl
+  have htg : target cx.rs (cx.cp.σ id) = ⟨r, i0⟩ := by simpa using hp.resolve cx.hlab (d := 0) (l := id) (nm := true) rfl
   rw [htr, hlk]
   simp only
   refine ⟨by rw [← htg]; exact hR, ?_⟩
@@ -73,7 +73,7 @@ theorem label_pm (cx : Cx) (fuel : Nat) (env : Src.Env) (he : EnvOK cx env) (n :
 
 /-- `jump @name;` -/
 theorem jump_pm (cx : Cx) (fuel : Nat) (env : Src.Env) (n : String) (hn : n ∈ cx.defs) :
-    PM cx (jumpStmt n) (fun k b => Src.tr fuel [] env (.jump n) k b) env := by
+    PM cx (jumpStmt n) (fun k b => Src.tr fuel cx.sm env (.jump n) k b) env := by
   intro s items s' h
   simp only [jumpStmt, bind_ok, pure_ok] at h
   obtain ⟨id, s1, h1, jj, s2, h2, h3⟩ := h
@@ -92,7 +92,7 @@ theorem jump_pm (cx : Cx) (fuel : Nat) (env : Src.Env) (n : String) (hn : n ∈ 
 
 /-- `call @name;` : a test that goes to the label when taken -/
 theorem call_pm (cx : Cx) (fuel : Nat) (env : Src.Env) (n : String) (hn : n ∈ cx.defs) :
-    PM cx (callStmt n) (fun k b => Src.tr fuel [] env (.call n) k b) env := by
+    PM cx (callStmt n) (fun k b => Src.tr fuel cx.sm env (.call n) k b) env := by
   intro s items s' h
   simp only [callStmt, bind_ok, pure_ok] at h
   obtain ⟨id, s1, h1, o, s2, h2, h3⟩ := h
@@ -101,10 +101,10 @@ theorem call_pm (cx : Cx) (fuel : Nat) (env : Src.Env) (n : String) (hn : n ∈ 
   obtain ⟨hst, hid⟩ := userLabel_stk h1
   obtain ⟨rfl, rfl⟩ := genOp_spec h2
   have hst2 : SameStk s (s1.tickedOp 1) := hst.trans (sameStk_tickedOp _ _)
-  have htr : ∀ k b, Src.tr fuel [] env (.call n) k b =
+  have htr : ∀ k b, Src.tr fuel cx.sm env (.call n) k b =
       ((Src.lookupLabel env b n).1.push (.test ⟨ESV.Spec.op_call, []⟩ (Src.lookupLabel env b n).2 k)) := by
     intro k b; rw [Src.tr]
-  have hgrow : ∀ k b, Grow cx.Z b (Src.tr fuel [] env (.call n) k b).1 := by
+  have hgrow : ∀ k b, Grow cx.Z b (Src.tr fuel cx.sm env (.call n) k b).1 := by
     intro k b
     rw [htr]
     simp only [Src.lookupLabel]
@@ -120,7 +120,7 @@ theorem call_pm (cx : Cx) (fuel : Nat) (env : Src.Env) (n : String) (hn : n ∈ 
     simp [loneJump, this] at hl
   intro r i0 hp _ k b hag m j hex hin hcont
   obtain ⟨i, hlk, hR⟩ := hex.labs n id hn (hin n id hid)
-  have hit : itemAt cx.rs ⟨r, i0⟩ = some (.ljump ⟨s1.opc + 1, Gen.op_call, []⟩ (some id)) := by simpa using hp.item (d := 0) rfl
+  have hit : ItemC cx.cp cx.rs ⟨r, i0⟩ (.ljump ⟨s1.opc + 1, Gen.op_call, []⟩ (some id)) := by simpa using hp.item (d := 0) rfl
   have hstep := lab_test hit (isTest_not_jump _ call_isTest) call_isTest
   rw [htr] at hag ⊢
   have hlook : Src.lookupLabel env b n = (b, i) := by simp [Src.lookupLabel, hlk]
@@ -128,8 +128,10 @@ theorem call_pm (cx : Cx) (fuel : Nat) (env : Src.Env) (n : String) (hn : n ∈ 
   simp only at hag ⊢
   obtain ⟨a1, a2⟩ := tbl_push b (.test ⟨ESV.Spec.op_call, []⟩ i k)
   have hN := agree_last hag a1
-  have hev : (⟨Gen.op_call, convParams []⟩ : Ev) = ⟨ESV.Spec.op_call, []⟩ := by decide
-  rw [hev] at hstep
+  have hev : (⟨Gen.op_call, convParams ([].map cx.cp.sub)⟩ : Ev) = ⟨ESV.Spec.op_call, []⟩ := by
+    show (⟨Gen.op_call, []⟩ : Ev) = _
+    decide
+  simp only [hev] at hstep
   have hfalls : falls [LItem.ljump ⟨s1.opc + 1, Gen.op_call, []⟩ (some id)] = true := by
     show (!(Gen.opsEndFlow.contains Gen.op_call)) = true
     decide
